@@ -317,9 +317,17 @@ class ClassParser(BaseParser):
         self.attr_alias_map = attr_alias_map
         self.case_insensitive_names = case_insensitive_names
 
+    def get_instance_options(self, _obj_self: object) -> Options:
+        # the options the instance was made with (init_dataclass keeps its context on it), else the class's
+        context = getattr(_obj_self, "__context__", None)
+        if isinstance(context, RuntimeContext):
+            return context.declared_options
+        return self.options
+
     def make_setter(self, field: ParserField, post_setattr=None):
         def setter(_obj_self: object, value):
-            if self.options.immutable or field.immutable:
+            options = self.get_instance_options(_obj_self)
+            if options.immutable or field.immutable:
                 raise exc.UpdateError(
                     f"{self.name}: "
                     f"Attempt to set immutable attribute: [{repr(field.attname)}]"
@@ -327,7 +335,7 @@ class ClassParser(BaseParser):
 
             # an assignment may be the first use of this declaration
             self.resolve_forward_refs()
-            context = self.options.make_context(_obj_self.__class__, force_error=True)
+            context = options.make_context(_obj_self.__class__, force_error=True)
             value = field.parse_value(value, context=context)
             if unprovided(value):
                 # an invalid value under the 'exclude' policy and no default to take its place:
@@ -342,13 +350,14 @@ class ClassParser(BaseParser):
 
     def make_property_setter(self, field: ParserField, fset: Callable):
         def setter(_obj_self: object, value):
-            if self.options.immutable or field.immutable:
+            options = self.get_instance_options(_obj_self)
+            if options.immutable or field.immutable:
                 raise exc.UpdateError(
                     f"{self.name}: "
                     f"Attempt to set immutable attribute: [{repr(field.attname)}]"
                 )
             self.resolve_forward_refs()
-            context = self.options.make_context(_obj_self.__class__, force_error=True)
+            context = options.make_context(_obj_self.__class__, force_error=True)
             value = field.parse_value(value, context=context)
             if unprovided(value):
                 # an invalid value under the 'exclude' policy: nothing is assigned
@@ -360,13 +369,14 @@ class ClassParser(BaseParser):
 
     def make_deleter(self, field: ParserField, post_delattr=None):
         def deleter(_obj_self: object):
-            if self.options.immutable or field.immutable:
+            options = self.get_instance_options(_obj_self)
+            if options.immutable or field.immutable:
                 raise exc.DeleteError(
                     f"{self.name}: "
                     f"Attempt to set immutable attribute: [{repr(field.attname)}]"
                 )
 
-            context = self.options.make_context(_obj_self.__class__, force_error=True)
+            context = options.make_context(_obj_self.__class__, force_error=True)
             if field.is_required(context.options):
                 raise exc.DeleteError(
                     f"{self.name}: Attempt to delete required schema key: {repr(field.attname)}"
